@@ -291,7 +291,8 @@ func (f *File) AddChild(child Box, boxStartPos uint64) {
 		// The case that a segment starts without an emsg or prft is also handled.
 		f.startSegmentIfNeeded(box, boxStartPos)
 		lastSeg := f.LastSegment()
-		if len(lastSeg.Fragments) == 0 {
+		if lastFrag := lastSeg.LastFragment(); lastFrag == nil || lastFrag.Mdat != nil {
+			// The previous fragment is complete, so this box belongs to a new one
 			lastSeg.AddFragment(&Fragment{StartPos: boxStartPos})
 		}
 		frag := lastSeg.LastFragment()
